@@ -78,6 +78,19 @@ CONF = {
         "tiers": tiers(8, 1500, 16, 40000),
         "require_classes": ["pop", "lazy-change", "immediate-change", "frame-after-lazy", "extreme-priority", "successor-displayed", "popped>=2"],
     },
+    "C01": {
+        "rule": "cases = concurrent scenarios: 1-9 bars, queue length from {default, 0, 1, 2, n-1, n, n+1}, refresh none/manual/injected auto/real ticker 1-3 ms, 0-2 synchronised decorators per side with wrapper stacks, pop mode, removal, queued successors, priority changes, 1-2 phases of 1-4 client goroutines issuing up to 10 operations each (updates, aborts, priority changes, Progress.Write, render ticks, late adds, getters, optional cancel/Shutdown), keyed delays at the hook points and one directed hold; every program ends by finishing all bars and calling Wait; non-trivial = >=2 bars and (sync decorators on >=2 bars, n>q, pop mode or concurrent clients); distinct by FNV-64 of the scenario JSON",
+        "assumptions": GO_ASSUME + SCHED_ASSUME,
+        "tiers": tiers(8, 400, 16, 12000, gomaxprocs=[4, 2, 8, 1]),
+        "require_classes": ["refresh:autort", "refresh:autoinj", "refresh:manual", "refresh:none", "n>q", "sync>=2bars", "n>q+sync", "pop", "cancelled", "hold"],
+    },
+    "C02": {
+        "rule": "cases = concurrent scenarios over the public API (Add, Write, UpdateBarPriority, every Bar mutator and getter, proxies, TraverseDecorators, DecoratorAverageAdjust, Bar.Wait) from 1-4 client goroutines in 1-2 phases, with context cancel or Shutdown inserted at a generated position inside a phase (60% of cases), all refresh modes, queue lengths incl. n>q, perturbation; then 1-12 late calls after Wait returned; non-trivial = the done event lies inside the history and there is >=1 late call; distinct by FNV-64 of the scenario JSON",
+        "assumptions": GO_ASSUME + SCHED_ASSUME + ["a worker process that dies (panic in a library goroutine, fatal error) is a violation; the journalled scenario is the replay file", "documented panics (nil reader/writer to a proxy, MustAdd after done, uninitialised WC) are not generated"],
+        "crash_is_violation": True,
+        "tiers": tiers(8, 400, 16, 12000, gomaxprocs=[4, 2, 8, 1]),
+        "require_classes": ["refresh:autort", "refresh:autoinj", "refresh:manual", "refresh:none", "done-inside-history", "late-add", "late-write", "late-proxy", "n>q", "call-lost-race-with-done"],
+    },
     "C03": {
         "rule": "cases = sequential programs on auto-refreshing containers (render requests injected by the harness racing with the library's early refresh, or a real 1-3 ms ticker): 1-6 bars with on-complete/on-abort fillers and decorator wrapper stacks, removal on completion, aborts with and without drop, pop mode, queued successors, post-terminal updates, optional cancel/Shutdown; non-trivial = >=2 bars, >=1 completed bar in the last frame and >=1 aborted, removed, popped or replaced bar, and no render-cycle step after the last update (the last frame has to come from early refresh or the final render); distinct by FNV-64 of the scenario JSON",
         "assumptions": GO_ASSUME + SCHED_ASSUME + ["which bars remain is computed from the program by a reference end-state model (first terminal event wins; successor replaces; pop mode pops out; remove-on-complete / abort with drop removes); under cancel/Shutdown only shown rows are judged", "hangs are left to C01 (counted, not judged here)"],
